@@ -118,7 +118,16 @@ def wrap_payload(desc_dict, depth, kind):
     return v
 
 
-def check_on(name, args, depth, side, version=2.0):
+def respell(text, mask):
+    """Spells some characters of every "__jsonclass__" member name with \\uXXXX escapes"""
+    if not mask:
+        return text
+    key = "__jsonclass__"
+    spelled = "".join("\\u%04x" % ord(c) if (mask >> i) & 1 else c for i, c in enumerate(key))
+    return text.replace('"%s"' % key, '"%s"' % spelled)
+
+
+def check_on(name, args, depth, side, version=2.0, spell=0):
     """A well-formed descriptor [name, args] with an invalid name"""
     from jsonrpclib import jsonclass as JC, jsonrpc as J
     from jsonrpclib.config import Config
@@ -128,12 +137,12 @@ def check_on(name, args, depth, side, version=2.0):
     if side == "load":
         r, evs, imps, made = observe(lambda: JC.load(payload))
     elif side == "client":
-        text = json.dumps({"jsonrpc": "2.0", "id": 1, "result": payload})
+        text = respell(json.dumps({"jsonrpc": "2.0", "id": 1, "result": payload}), spell)
         r, evs, imps, made = observe(lambda: J.loads(text, Config()))
     else:
         registry = refmodel.Registry()
         disp, dm, registry, cfg = refmodel.make_dispatcher(version, True, "funcs", registry)
-        text = json.dumps({"jsonrpc": "2.0", "id": 1, "method": "echo", "params": [payload]})
+        text = respell(json.dumps({"jsonrpc": "2.0", "id": 1, "method": "echo", "params": [payload]}), spell)
         r, evs, imps, made = observe(lambda: disp._marshaled_dispatch(text))
         if r[0] != "ret":
             fail("C02/dispatcher-raised:%s" % type(r[1]).__name__, "dispatcher raised %r" % (r[1],))
@@ -192,7 +201,8 @@ def random_on_cases(draw):
     else:
         name = draw(st.text(min_size=1, max_size=12).filter(invalid_name))
     return {"name": name, "args": draw(st.sampled_from([[], {}, [1], {"a": 1}])), "depth": draw(st.integers(0, 4)),
-            "side": draw(st.sampled_from(["load", "client", "server"])), "version": draw(st.sampled_from([1.0, 2.0])), "kind": kind}
+            "side": draw(st.sampled_from(["load", "client", "server"])), "version": draw(st.sampled_from([1.0, 2.0])), "kind": kind,
+            "spell": draw(st.one_of(st.just(0), st.just(0), st.integers(1, 2 ** 13 - 1)))}
 
 
 def oracle_random_on(case):
@@ -200,10 +210,10 @@ def oracle_random_on(case):
     name = case["name"]
     if not invalid_name(name):
         raise Skip()
-    check_on(name, case["args"], case["depth"], case["side"], case["version"])
+    check_on(name, case["args"], case["depth"], case["side"], case["version"], case.get("spell", 0))
     cleaned = re.sub(r"[^a-zA-Z0-9_.]", "", name)
     resolves = cleaned in CANARIES or cleaned in ("decimal.Decimal", "os.system", "subprocess.Popen", "builtins.eval")
-    return Info(nt=case["depth"] >= 1 or resolves, classes=["on", "side:" + case["side"], "kind:" + case["kind"], "depth:%d" % case["depth"]] + (["resolves-if-cleaned"] if resolves else []),
+    return Info(nt=case["depth"] >= 1 or resolves, classes=["on", "side:" + case["side"], "kind:" + case["kind"], "depth:%d" % case["depth"]] + (["resolves-if-cleaned"] if resolves else []) + (["escaped-member-name"] if case.get("spell") and case["side"] != "load" else []),
                 sample={"name": name, "depth": case["depth"], "side": case["side"]})
 
 
@@ -274,7 +284,8 @@ def off_cases(draw):
     d["__jsonclass__"] = desc
     payload = wrap_payload(d, draw(st.integers(0, 4)), draw(st.sampled_from(["list", "dict"])))
     return {"payload": payload, "side": draw(st.sampled_from(["client", "server", "load"])), "version": draw(st.sampled_from([1.0, 2.0])),
-            "canary": isinstance(desc, list) and bool(desc) and desc[0] in CANARIES}
+            "canary": isinstance(desc, list) and bool(desc) and desc[0] in CANARIES,
+            "spell": draw(st.one_of(st.just(0), st.integers(1, 2 ** 13 - 1)))}
 
 
 def oracle_off(case):
@@ -285,7 +296,7 @@ def oracle_off(case):
     cfg = Config(version=case["version"], use_jsonclass=False)
     payload = case["payload"]
     if case["side"] == "client":
-        text = json.dumps({"jsonrpc": "2.0", "id": 1, "result": payload})
+        text = respell(json.dumps({"jsonrpc": "2.0", "id": 1, "result": payload}), case.get("spell", 0))
         r, evs, imps, made = observe(lambda: J.loads(text, cfg))
         if r[0] != "ret" or not gen.strict_eq(r[1], json.loads(text)):
             fail("C08/off-not-plain-json", "loads with use_jsonclass disabled gave %r for %r" % (r[1], text[:200]))
@@ -297,7 +308,7 @@ def oracle_off(case):
     else:
         registry = refmodel.Registry(jsonclass=False)
         disp, dm, registry, scfg = refmodel.make_dispatcher(case["version"], False, "funcs", registry)
-        text = json.dumps({"jsonrpc": "2.0", "id": 1, "method": "echo", "params": [payload]})
+        text = respell(json.dumps({"jsonrpc": "2.0", "id": 1, "method": "echo", "params": [payload]}), case.get("spell", 0))
         r, evs, imps, made = observe(lambda: disp._marshaled_dispatch(text))
         if r[0] != "ret":
             fail("C02/dispatcher-raised:%s" % type(r[1]).__name__, "dispatcher raised %r" % (r[1],))
